@@ -588,7 +588,7 @@ func runC18(w *World, r *Report) {
 			ruleNoMutateParams(w, r, "C18.handlers-leave-messages-alone", lit, names)
 		}
 		if n < 2 {
-			undecidedf("C18.handlers-leave-messages-alone: only %d message-taking literals in NewAgent", n)
+			r.Deferred = append(r.Deferred, fmt.Sprintf("C18.handlers-leave-messages-alone: only %d message-taking literals in NewAgent", n))
 		}
 	}
 
@@ -722,7 +722,7 @@ func runC18(w *World, r *Report) {
 			r.OK("C18.chunk-parts-independent", fmt.Sprintf("ConcatMessages: %d per-part appends", n), cm.Pos(), "each guarded by tests of its own part only")
 		}
 		if n < 3 {
-			undecidedf("C18.chunk-parts-independent: only %d per-part appends found in ConcatMessages", n)
+			r.Deferred = append(r.Deferred, fmt.Sprintf("C18.chunk-parts-independent: only %d per-part appends found in ConcatMessages", n))
 		}
 	}
 
